@@ -112,6 +112,10 @@ struct Cfg {
     /// two-pass mode: the k-th read of the second pass fails once (kind TimedOut, built without
     /// allocating); the failed call is simply repeated
     fault: Option<usize>,
+    /// two phases: pairs (long, short) first, then pairs (long, medium): the complete records of a set
+    /// span more bytes in the second phase although no record is larger than before; judged there:
+    /// the capacity clause (reader and set buffer capacities unchanged, policy never consulted)
+    phased: bool,
 }
 
 /// a seekable source over a slice whose reads can be made to fail once at a chosen call
@@ -146,6 +150,41 @@ impl<'a> std::io::Seek for Faulty<'a> {
     }
 }
 
+/// phased stream: warm-up = the sets delivering the first 14 records (7 long/short pairs), then the
+/// rest is read; capacities must not change and the policy must not be asked
+fn run_phased(c: &Cfg, data: Vec<u8>) -> (u64, bool, usize, u64, String) {
+    let mut measured = 0u64;
+    macro_rules! phased {
+        ($m:ident) => {{
+            use seq_io::$m::{Reader, RecordSet};
+            let mut rdr = Reader::with_capacity(&data[..], c.cap).set_policy(CountPolicy(0));
+            let mut set = RecordSet::default();
+            let mut warm = 0usize;
+            while warm < 14 {
+                if !matches!(rdr.read_record_set(&mut set), Some(Ok(()))) {
+                    break;
+                }
+                warm += set.len();
+            }
+            let (cap0, bc0) = (rdr.verif_capacity(), set.buf_capacity());
+            let mut changed_at = None;
+            while let Some(Ok(())) = rdr.read_record_set(&mut set) {
+                measured += set.len() as u64;
+                if changed_at.is_none() && (rdr.verif_capacity() != cap0 || set.buf_capacity() != bc0) {
+                    changed_at = Some(warm as u64 + measured);
+                }
+            }
+            let changed = changed_at.is_some() || cap0 != c.cap;
+            (0u64, changed, rdr.policy().0, format!("warm-up {} records; reader capacity {} -> {} (initial {}), set buffer capacity {} -> {}, first change after {:?} records", warm, cap0, rdr.verif_capacity(), c.cap, bc0, set.buf_capacity(), changed_at))
+        }};
+    }
+    let (a, ch, p, i) = match c.format {
+        Format::Fasta => phased!(fasta),
+        Format::Fastq => phased!(fastq),
+    };
+    (a, ch, p, measured, i)
+}
+
 /// length of the two-pass input
 fn template_len(format: Format, lines: usize, line_len: usize, crlf: bool) -> usize {
     6 * (7 * record_bytes(format, lines, line_len, crlf).len() + 3 * record_bytes(format, lines, 3 * line_len + 2, crlf).len())
@@ -159,6 +198,18 @@ fn run_two_pass(c: &Cfg) -> (u64, bool, usize, u64, String) {
     let short = record_bytes(c.format, c.lines, c.line_len, c.crlf);
     let long = record_bytes(c.format, c.lines, 3 * c.line_len + 2, c.crlf);
     let mut template = vec![];
+    if c.phased {
+        let medium = record_bytes(c.format, c.lines, 2 * c.line_len, c.crlf);
+        for _ in 0..8 {
+            template.extend_from_slice(&long);
+            template.extend_from_slice(&short);
+        }
+        for _ in 0..8 {
+            template.extend_from_slice(&long);
+            template.extend_from_slice(&medium);
+        }
+        return run_phased(c, instantiate(&template));
+    }
     for _ in 0..6 {
         for _ in 0..7 {
             template.extend_from_slice(&short);
@@ -446,6 +497,7 @@ fn main() {
             varied: r["varied"].as_bool().unwrap_or(false),
             unterminated: r["unterminated"].as_bool().unwrap_or(false),
             fault: r["fault"].as_u64().map(|k| k as usize),
+            phased: r["phased"].as_bool().unwrap_or(false),
         };
         let a = run_cfg(&c);
         let b = run_cfg(&c);
@@ -469,35 +521,37 @@ fn main() {
                     let mut cap = rl + 1;
                     while cap <= 5 * rl {
                         for set in [false, true] {
-                            cfgs.push(Cfg { format, lines, line_len, crlf, cap, set, mixed: 0, varied: false, unterminated: false, fault: None });
+                            cfgs.push(Cfg { format, lines, line_len, crlf, cap, set, mixed: 0, varied: false, unterminated: false, fault: None, phased: false });
                         }
                         for mixed in [1usize, 2, 3, 5] {
-                            cfgs.push(Cfg { format, lines, line_len, crlf, cap, set: true, mixed, varied: false, unterminated: false, fault: None });
+                            cfgs.push(Cfg { format, lines, line_len, crlf, cap, set: true, mixed, varied: false, unterminated: false, fault: None, phased: false });
                         }
                         cap += step;
                     }
                     for set in [false, true] {
-                        cfgs.push(Cfg { format, lines, line_len, crlf, cap: 65536, set, mixed: 0, varied: false, unterminated: false, fault: None });
+                        cfgs.push(Cfg { format, lines, line_len, crlf, cap: 65536, set, mixed: 0, varied: false, unterminated: false, fault: None, phased: false });
                     }
                     // records of two lengths: every capacity from the long record + 1 to 4 long records
                     let ll = record_bytes(format, lines, 3 * line_len + 2, crlf).len();
                     for cap in (ll + 1..=4 * ll).chain([65536]) {
                         for mixed in [0usize, 1, 3] {
                             for unterminated in [false, true] {
-                                cfgs.push(Cfg { format, lines, line_len, crlf, cap, set: true, mixed, varied: true, unterminated, fault: None });
+                                cfgs.push(Cfg { format, lines, line_len, crlf, cap, set: true, mixed, varied: true, unterminated, fault: None, phased: false });
                             }
                         }
                         // one transient source failure at the k-th read of the second pass, call repeated
                         if cap <= 2 * ll || cap == 65536 {
                             for k in 0..(2 * template_len(format, lines, line_len, crlf) / cap + 4).min(60) {
                                 for mixed in [0usize, 1] {
-                                    cfgs.push(Cfg { format, lines, line_len, crlf, cap, set: true, mixed, varied: true, unterminated: false, fault: Some(k) });
+                                    cfgs.push(Cfg { format, lines, line_len, crlf, cap, set: true, mixed, varied: true, unterminated: false, fault: Some(k), phased: false });
                                 }
                             }
                         }
+                        // two phases (long+short pairs, then long+medium pairs)
+                        cfgs.push(Cfg { format, lines, line_len, crlf, cap, set: true, mixed: 0, varied: true, unterminated: false, fault: None, phased: true });
                         // single reads only, up to and including the end of the input
                         for unterminated in [false, true] {
-                            cfgs.push(Cfg { format, lines, line_len, crlf, cap, set: false, mixed: 1, varied: true, unterminated, fault: None });
+                            cfgs.push(Cfg { format, lines, line_len, crlf, cap, set: false, mixed: 1, varied: true, unterminated, fault: None, phased: false });
                         }
                     }
                 }
@@ -518,10 +572,10 @@ fn main() {
             let what = if allocs != 0 { "allocation" } else if pol != 0 { "policy-consulted" } else { "capacity-changed" };
             l.violation(Violation {
                 property: "C18".into(),
-                sig: format!("{}|{}|{}", c.format.name(), if c.varied { "two-lengths" } else if c.mixed > 0 { "mixed" } else if c.set { "record-set" } else { "next" }, what),
-                detail: format!("{} records with {} sequence line(s) of {} bytes (crlf {}), capacity {}, {}: {} heap allocations in the measured window of {} records, {} policy calls; {}", c.format.name(), c.lines, c.line_len, c.crlf, c.cap, if c.varied { format!("blocks of 7 short and 3 long records{}{}, second identical pass after seeking back; {} x next() then {}, repeated until the end of the input", if c.unterminated { " (last record without line terminator)" } else { "" }, c.fault.map_or(String::new(), |k| format!(" (reads of at most capacity/2 bytes; read {} of the second pass fails once, the call is repeated)", k)), c.mixed, if c.set { "read_record_set into the reused set" } else { "nothing else" }) } else if c.mixed > 0 { format!("{} x next() then read_record_set, repeated", c.mixed) } else if c.set { "reused record set".to_string() } else { "next()".to_string() }, allocs, measured, pol, info),
+                sig: format!("{}|{}|{}", c.format.name(), if c.phased { "phased" } else if c.varied { "two-lengths" } else if c.mixed > 0 { "mixed" } else if c.set { "record-set" } else { "next" }, what),
+                detail: format!("{} records with {} sequence line(s) of {} bytes (crlf {}), capacity {}, {}: {} heap allocations in the measured window of {} records, {} policy calls; {}", c.format.name(), c.lines, c.line_len, c.crlf, c.cap, if c.phased { "pairs (long, short) then pairs (long, medium) into a reused set; capacities after the warm-up must not change".to_string() } else if c.varied { format!("blocks of 7 short and 3 long records{}{}, second identical pass after seeking back; {} x next() then {}, repeated until the end of the input", if c.unterminated { " (last record without line terminator)" } else { "" }, c.fault.map_or(String::new(), |k| format!(" (reads of at most capacity/2 bytes; read {} of the second pass fails once, the call is repeated)", k)), c.mixed, if c.set { "read_record_set into the reused set" } else { "nothing else" }) } else if c.mixed > 0 { format!("{} x next() then read_record_set, repeated", c.mixed) } else if c.set { "reused record set".to_string() } else { "next()".to_string() }, allocs, measured, pol, info),
                 weight: (c.cap + c.line_len * 1000) as u64,
-                replay: json!({"kind": "alloc", "format": c.format.name(), "lines": c.lines, "line_len": c.line_len, "crlf": c.crlf, "cap": c.cap, "set": c.set, "mixed": c.mixed, "varied": c.varied, "unterminated": c.unterminated, "fault": c.fault}),
+                replay: json!({"kind": "alloc", "format": c.format.name(), "lines": c.lines, "line_len": c.line_len, "crlf": c.crlf, "cap": c.cap, "set": c.set, "mixed": c.mixed, "varied": c.varied, "unterminated": c.unterminated, "fault": c.fault, "phased": c.phased}),
             });
         }
         if idx % 211 == 7 && l.samples.len() < 2 {
